@@ -1,0 +1,21 @@
+//go:build verif
+
+package nextroute
+
+// Verification hooks (build tag verif). With the tag off these are no-ops (verif_off.go).
+
+// VerifHook, when set before solving starts, receives every hook call. The
+// harness uses it to record traces and to perturb goroutine schedules.
+var VerifHook func(site string, args ...any)
+
+func verifNote(site string, args ...any) {
+	if h := VerifHook; h != nil {
+		h(site, args...)
+	}
+}
+
+func verifYield(site string) {
+	if h := VerifHook; h != nil {
+		h(site)
+	}
+}
